@@ -3,5 +3,5 @@ From Common Require Import Words.
 From Variant Require Import VariantSpec VariantModel.
 Extraction Language OCaml.
 Extraction "model.ml" anchor init mstep mrun release_top destroy_all abs_vars abs_top live_blocks spec_init spec_step self_containing
-  vtype is_null to_bool to_int to_uint to_i64 to_u64 to_dbl to_str veq depth
+  vtype is_null to_bool to_int to_uint to_i64 to_u64 to_dbl to_str veq depth int_pinned uint_pinned i64_pinned u64_pinned veq_pinned
   m_type m_is_null m_to_bool m_to_int m_to_uint m_to_i64 m_to_u64 m_to_dbl m_to_str meq_top.
